@@ -20,6 +20,15 @@ def n(tier, q, t, scale=1.0):
 
 
 PROPS = {}
+
+
+def memcheck_pass(mode, cases):
+    """valgrind memcheck over a reduced workload: uninitialised values that reach results or control flow (ASan cannot see those)"""
+    p = Pass('memcheck', 'h_eval.plain-g', mode, cases, chunk=1, stall_s=1200,
+             wrapper=['valgrind', '-q', '--error-exitcode=99', '--track-origins=yes', '--error-limit=no', '--num-callers=14'])
+    p.scan = 'memcheck'
+    return p
+
 NOT_APPLICABLE = {}
 
 NOTE_COMMON = 'trusted: gcc-12 ASan/UBSan/TSan runtimes, valgrind, glibc, cfitsio 4.2.0, CHOLMOD 3.0.14, SPQR, OpenBLAS as installed, and the harness itself (its numerical reference is self-checked at start); verdicts are about the executions produced, not all inputs'
@@ -45,9 +54,10 @@ PROPS['C02'] = dict(
     level_text='Same exploration as C01 for derivatives: every bitmask (all subsets up to 4 dims), every gradient lane in both precisions and ndsplineeval_deriv with orders 0..order+1 are compared with the exact derivative of the reference on the same polynomial piece; derivatives above the order must be exactly zero.',
     level_note=NOTE_COMMON,
     technique='runtime monitor: exact-derivative reference oracle + ASan/UBSan',
-    targets=[T('h_eval.cpp', 'asan'), T('h_eval.cpp', 'prod')],
+    targets=[T('h_eval.cpp', 'asan'), T('h_eval.cpp', 'prod'), T('h_eval.cpp', 'plain-g')],
     passes=lambda tier, sc: [Pass('asan', 'h_eval.asan', 'C02', n(tier, 140, 2000, sc)),
-                             Pass('prod', 'h_eval.prod', 'C02', n(tier, 140, 2000, sc))],
+                             Pass('prod', 'h_eval.prod', 'C02', n(tier, 140, 2000, sc)),
+                             memcheck_pass('C02', n(tier, 16, 96, sc))],
     level='exploration',
     rule='case = random table (1-7 dims) x points (as C01) x {every derivative bitmask for ndim<=4, sampled above; every gradient '
          'component in both precisions; ndsplineeval_deriv with per-dimension orders 0..order+1}; compared with the exact derivative of '
@@ -109,8 +119,9 @@ PROPS['C05'] = dict(
     level_text='Hostile-input exploration under ASan+UBSan with assertions enabled and exact-size heap buffers: arbitrary IEEE bit patterns as coordinates through every entry point of every specialised routine; each case isolated in a worker that is restarted after a crash so one defect never masks another.',
     level_note=NOTE_COMMON,
     technique='sanitizers (ASan+UBSan, asserts) under hostile workload',
-    targets=[T('h_eval.cpp', 'asan')],
-    passes=lambda tier, sc: [Pass('asan', 'h_eval.asan', 'C05', n(tier, 480, 6000, sc))],
+    targets=[T('h_eval.cpp', 'asan'), T('h_eval.cpp', 'plain-g')],
+    passes=lambda tier, sc: [Pass('asan', 'h_eval.asan', 'C05', n(tier, 480, 6000, sc)),
+                             memcheck_pass('C05', n(tier, 16, 96, sc))],
     level='exploration',
     rule='case = well-formed table (minimum knot counts over-represented; every specialised routine) x 30-400 coordinate vectors drawn '
          'from random 64-bit patterns, NaN payloads, infinities, denormals, +-DBL_MAX, knots and neighbours; lookup and, when it succeeds, '
